@@ -29,7 +29,10 @@ FetchPandasAll == \E op \in {o \in Ops(st) : o.k = "pandas"} : Do(op)
 ReadDescription == \E op \in {o \in Ops(st) : o.k = "descr"} : Do(op)
 Next == Open \/ Execute \/ ExecuteFail \/ FetchOne \/ FetchMany \/ FetchManyDefault \/ FetchAll
         \/ SetArraysize \/ FetchPandasAll \/ ReadDescription
-NextWalk == \E op \in {RandomElement(Ops(st))} : Do(op)
+\* random walks (-simulate): ordinary steps up to Depth operations, then one step that prints the walk (exactly one
+\* candidate successor there, so exactly one line per walk)
+WalkEnd == Len(hist) = Depth /\ PrintT(<<"B", ToJson(hist)>>) /\ hist' = Append(hist, [k |-> "end"]) /\ UNCHANGED <<st, deliv>>
+NextWalk == (Len(hist) < Depth /\ Next) \/ WalkEnd
 Spec == Init /\ [][Next]_vars
 
 \* ---- C05 on the model ----
@@ -56,5 +59,7 @@ Monotone == [][(st'.open /\ st.open /\ hist' # hist /\ hist'[Len(hist')].k \noti
 Bound == Len(hist) < Depth
 ViewSt == <<st, deliv>>          \* model checking / transition cover: histories are invisible
 EmitAll == PrintT(<<"B", ToJson(hist')>>)
+\* -simulate: evaluated as an INVARIANT, i.e. only on the states TLC actually walks through: one print per walk
+EmitInv == Len(hist) = Depth => PrintT(<<"B", ToJson(hist)>>)
 EmitEnd == Len(hist') = Depth => PrintT(<<"B", ToJson(hist')>>)
 =============================================================================
